@@ -73,8 +73,9 @@ CHECKS = {
     "C08": E("other",
              "Postconditions of the real get_cauchy_point (breakpoints, ordered positive breakpoint list, feasibility, "
              "exact pinning, first local minimiser on the projected path, model decrease, auxiliary vector, arguments "
-             "untouched) discharged by z3 NRA for ALL real inputs and every bound/sign pattern at n <= 2 (quick) / 3 "
-             "(thorough) with empty memory: proved-at-shape, bounded in shape. With stored pairs: bounded native stand-in.",
+             "untouched) discharged by z3 NRA for ALL real inputs and every bound/sign pattern at n <= 2 with empty "
+             "memory (a full n = 3 run does not fit the thorough budget; thorough adds the unbounded n = 3 pattern): "
+             "proved-at-shape, bounded in shape. With stored pairs and larger n: bounded native stand-in.",
              "DESIGN.md 9 C08", "A-REAL; A-SAFEGUARD; shapes stated in the evidence; memory m>=1 bounded only.",
              T + "fixed-shape symbolic execution of the real kernel, unrolled loops with unwinding obligations, z3 NRA"),
     "C09": E("other",
